@@ -19,7 +19,7 @@ ASSUMPTIONS = [
     "picosvg-normal source is the reference; shapes are compared with the tolerance of C01",
     "allowed protrusion of compiled outlines: (0.5 + 0.001 upem) * max(1, sigma(placing transform)) + 0.5 + fixed-point field error",
 ]
-N = {"quick": 160, "thorough": 4000}
+N = {"quick": 640, "thorough": 8000}
 
 
 def plan(tier, seed):
@@ -122,6 +122,10 @@ def run_case(case):
         ref = [l for l in ref if not compare.negligible(l)]
         box = ev.clip_box(name)
         c["glyphs"] = c.get("glyphs", 0) + 1
+        if not ref and ref_all:
+            # only slivers that vanish (or degenerate) on the integer grid: a box around them is neither required nor wrong
+            c["glyphs_with_only_negligible_shapes"] = c.get("glyphs_with_only_negligible_shapes", 0) + 1
+            continue
         if not ref:
             c["empty_glyphs"] = c.get("empty_glyphs", 0) + 1
             if box is not None:
